@@ -79,8 +79,33 @@ class World:
             self.atoms[name] = SymAtom(name)
         return self.atoms[name]
 
+    def prime_decoy(self):
+        """History: the same process parsed, through the same public entry point, another project whose files have the
+        same names but other contents (declaration kinds swapped in every module file)."""
+        droot = "/nonexistent_verif_fs/decoy"
+        for rel_full, text in list(self.files.items()):
+            rel = rel_full[len(ROOT) + 1:]
+            if rel not in ("main.fcp", "single.fcp"):
+                text = re.sub(r"enum (\w+) \{[^}]*\}", lambda m: "struct %s { zz @0: u8, }" % m.group(1), text)
+                text = re.sub(r"struct (N\d+) \{[^}]*\}(?!\s*//kept)",
+                              lambda m: "enum %s { ZA = 0, }" % m.group(1), text) if "enum" not in self.files[rel_full] else text
+            self.files[droot + "/" + rel] = text
+        self.symbolic = False
+        try:
+            self.P.get_fcp(droot + "/main.fcp")
+        except Exception:
+            pass
+        finally:
+            self.symbolic = True
+            for k in [k for k in self.files if k.startswith(droot)]:
+                del self.files[k]
+
+    symbolic = True
+
     def subst(self, t):
         from lark import Tree
+        if not self.symbolic:
+            return t
 
         if isinstance(t, Tree):
             if t.data == "identifier" and PLACEHOLDER.match(str(t.children[0].value)):
@@ -89,9 +114,8 @@ class World:
         return t
 
     def run(self, main="main.fcp"):
-        from fcp.error import Logger
-
-        return self.P.get_fcp(str(pathlib.PurePosixPath(ROOT) / main), Logger({}))
+        # the public entry point with its default logger (a default argument shared by all calls of the process)
+        return self.P.get_fcp(str(pathlib.PurePosixPath(ROOT) / main))
 
     def prescan(self):
         """Create the atoms of every file up front (so assumptions can mention them)."""
@@ -144,6 +168,11 @@ C08_TEMPLATES = [
                 "a/c.fcp": V3 + "enum N5 { A = 0, }\nstruct N2 { z @0: R3, }\n"},
          decls={"N1": "enum", "N2": "struct", "N3": "struct", "N4": "struct", "N5": "enum"},
          refs={"R1": (["N1", "N2", "N3", "N5"], "N4", "x"), "R2": (["N1", "N2", "N5"], "N3", "y"), "R3": (["N5"], "N2", "z")}),
+    dict(name="binding_alias_is_not_a_type",
+         files={"main.fcp": V3 + "struct N1 { a @0: u8, }\nimpl can for N1 as N2 {\n    id: 1,\n}\n"
+                                 "struct N3 { g @0: Optional[[R1, 4]], }\n"},
+         decls={"N1": "struct", "N2": "alias", "N3": "struct"},
+         refs={"R1": (["N1"], "N3", "g")}),
     dict(name="module_cannot_see_importer",
          files={"main.fcp": V3 + "enum N1 { A = 0, }\nmod m;\nstruct N3 { y @0: R2, }\n",
                 "m.fcp": V3 + "struct N2 { z @0: R1, }\n"},
@@ -171,6 +200,7 @@ def c08_case(args):
     known = Known("C08")
     W_ = World(tpl["files"])
     W_.prescan()
+    W_.prime_decoy()
     decls, refs = tpl["decls"], tpl["refs"]
     assume = W_.distinct_decls(decls)
     feats = {"desc": tpl["name"], "template": tpl["name"]}
@@ -344,6 +374,7 @@ PLANS = [
     dict(name="two_modules", blocks=[(["enum1"], "m"), (["impl3", "svc", "dev"], "x.y")]),
     dict(name="dotted_then_flat", blocks=[(["enum1"], "a.b"), (["svc"], "m"), (["dev"], "z")]),
     dict(name="dotted_then_dotted", blocks=[(["enum1"], "a.b"), (["impl3", "svc"], "c.d"), (["dev"], "z")]),
+    dict(name="same_basename", blocks=[(["enum1"], "a.t"), (["svc"], "b.t"), (["dev"], "c.d.t")]),
     dict(name="binding_alone", blocks=[(["impl2"], "m"), (["impl3"], "n.o")]),
     dict(name="nested", blocks=[(["enum1", "struct2"], "a.b")], nested={"a.b": (["enum1"], "c")}),
     dict(name="depth3", blocks=[(["enum1", "struct2", "impl2", "struct3"], "a.b.c")]),
@@ -432,6 +463,7 @@ def c20_case(args):
     # the single-file text goes into the same world (same atoms) under another root file name
     Wd.files[str(pathlib.PurePosixPath(ROOT) / "single.fcp")] = single_files["main.fcp"]
     Wd.subst(Wd.real_parser.parse(single_files["main.fcp"]))
+    Wd.prime_decoy()
     assume = Wd.distinct_decls([d for d in decl_names if d in Wd.atoms])
     # precondition of the property: the moved subset respects declare-before-use, i.e. a reference inside a module
     # file does not name a declaration that only exists outside that file and the files it imports
